@@ -1,10 +1,34 @@
 import Rtcm.Model.Size
 import Rtcm.Gen.Messages
+import Rtcm.Model.Message
+import Rtcm.Proofs.InterpList
+import Rtcm.Proofs.InterpFrame
+import Rtcm.Props.C07
 /-!
 # C15  Lists of every admissible length survive; counts and capacities agree
+
+Static part (kernel evaluation over the generated message table):
+* `list_fits`: every list-bearing message fits the payload at full capacity;
+* `count_fields_wide_enough`, `count_fields_plain`: every count field is wide enough for its
+  capacity and is a plain unsigned field.
+
+Dynamic part, about the list combinators of the one interpreter (`Interp.decFrag` / `Interp.encFrag`
+on `.vecWithLen` = `frag_vec_with_len!`, `.lenMiddle` = `msg_len_middle!`, `.str` =
+`df_88591_string_with_len!`), generic in the element layout and the build profile:
+* (a) `count_above_cap_corrupt`, `…_lenMiddle`, `…_str`, `decodeFrame_corrupt_of_err`,
+  `count_above_cap_message_corrupt`: a count above the capacity is `CapacityExceeded`, hence `Corrupt`;
+* (b) `vec_decode_count`, `lenMiddle_decode_count`, `grid16_decode_count`: a successful decode
+  yields the count `n ≤ cap` found on the wire followed by exactly `n` element decodes;
+* (c) `count_on_wire`, `count_on_wire_str`, `count_on_wire_lenMiddle` (`'`), `count_agrees`: in the
+  buffer resulting from a successful encode of the whole list the count field holds the number of
+  elements (uses `Interp.encFrag_below`: encoders never write before their cursor);
+* (d) `decRepeat_all_elements`, `decRepeat_first_error`, `truncated_body_corrupt` (`_lenMiddle`),
+  `vec_ok_no_element_fails`, `df_truncated`, `truncated_fixed_not_ok`, `vec_fixed_size`,
+  `truncated_message_corrupt`: the first failing element decides the result; a body that ends
+  before the last element is never accepted as a shorter list.
 -/
 namespace Rtcm.C15
-open Rtcm.Schema Rtcm.Size
+open Rtcm.Schema Rtcm.Size Rtcm.Interp Rtcm.Message
 
 /-- Every list-bearing message (MSM and bias structures excluded) fits the 1023-byte payload at full
 capacity: 12 bits of message number + the layout's maximal size ≤ 8184 bits. -/
@@ -21,5 +45,516 @@ theorem count_fields_wide_enough : Gen.messageTable.all (fun r => countsFit r.fr
 /-- the largest list-bearing message at capacity -/
 example : (Gen.messageTable.filter (fun r => plain r.frag)).foldl (fun m r => max m (12 + maxBits r.frag)) 0 ≤ 8184 := by
   decide +kernel
+
+/-! ## The list combinators of the interpreter
+
+Generic in the element layout `elem : Frag` (hence in the element codec `decFrag cfg elem` /
+`encFrag cfg glo elem`) and in the build profile `cfg`.
+`Steps f n c ps c'` (Proofs/InterpList.lean): `n` consecutive successful element decodes from cursor
+`c` to `c'`, with token groups `ps` (one per element, `ps.length = n`). -/
+
+/-! ### (a) a count above the capacity is answered with `CapacityExceeded`, i.e. `Message::Corrupt` -/
+
+/-- `frag_vec_with_len!`: the `lenBits`-bit count read at the cursor exceeds the capacity -/
+theorem count_above_cap_corrupt (cfg : Cfg) (elem : Frag) (cap lenBits : Nat) (c : Cur) (n o : Nat)
+    (hcount : Bits.parse cfg ⟨.u, 16⟩ c.data c.off lenBits = .ok (n, o)) (hn : cap < n) :
+    decFrag cfg (.vecWithLen elem cap lenBits) c = .err .capacityExceeded := by
+  unfold decFrag
+  simp only [hcount, gt_iff_lt, hn, if_true]
+
+/-- `msg_len_middle!`: the count field (decoded between `fields1` and `fields2`) exceeds the
+capacity; the test happens after `fields2` has been decoded -/
+theorem count_above_cap_corrupt_lenMiddle (cfg : Cfg) (f1 f2 : Fields) (lenDf : DfSpec) (elem : Frag)
+    (cap : Nat) (c c1 c2 c3 : Cur) (t1 t2 : List Tok) (n : Int)
+    (h1 : decFields cfg f1 c = .ok (t1, c1))
+    (hcount : Df.decode cfg lenDf c1 = .ok ([.int n], c2))
+    (h2 : decFields cfg f2 c2 = .ok (t2, c3)) (hn : cap < n.toNat) :
+    decFrag cfg (.lenMiddle f1 lenDf f2 elem cap) c = .err .capacityExceeded := by
+  unfold decFrag
+  simp only [h1, hcount, h2, gt_iff_lt, hn, if_true]
+
+/-- `df_88591_string_with_len!`: the length prefix exceeds the capacity -/
+theorem count_above_cap_corrupt_str (cfg : Cfg) (cap lenBits : Nat) (c c1 : Cur) (len : Nat)
+    (hcount : Text.parseU cfg 8 lenBits c = .ok (len, c1)) (hn : cap < len) :
+    Text.strDecode cfg cap lenBits c = .err .capacityExceeded ∧
+    decFrag cfg (.str cap lenBits) c = .err .capacityExceeded := by
+  have h : Text.strDecode cfg cap lenBits c = .err .capacityExceeded := by
+    unfold Text.strDecode
+    simp only [hcount, gt_iff_lt, hn, if_true]
+  refine ⟨h, ?_⟩
+  unfold decFrag
+  simp only [h]
+
+/-- every decode error of the body becomes `Message::Corrupt` in `Message::from_message_frame` -/
+theorem decodeFrame_corrupt_of_err (cfg : Cfg) (tbl : List MsgRow) (f : Frame) (n : Nat) (row : MsgRow)
+    (e : RtcmError) (hnum : f.number = some n) (hrow : findRow tbl n = some row)
+    (herr : decFrag cfg row.frag { data := f.data.map (·.toNat), off := 12 } = .err e) :
+    decodeFrame cfg tbl f = .ok .corrupt := by
+  unfold decodeFrame
+  simp only [hnum, hrow, herr]
+
+/-- (a) at message level: a frame whose body is a `frag_vec_with_len!` list with a count above the
+capacity decodes to `Corrupt` -/
+theorem count_above_cap_message_corrupt (cfg : Cfg) (tbl : List MsgRow) (f : Frame) (num : Nat) (row : MsgRow)
+    (elem : Frag) (cap lenBits n o : Nat)
+    (hnum : f.number = some num) (hrow : findRow tbl num = some row)
+    (hfrag : row.frag = .vecWithLen elem cap lenBits)
+    (hcount : Bits.parse cfg ⟨.u, 16⟩ (f.data.map (·.toNat)) 12 lenBits = .ok (n, o)) (hn : cap < n) :
+    decodeFrame cfg tbl f = .ok .corrupt := by
+  apply decodeFrame_corrupt_of_err cfg tbl f num row .capacityExceeded hnum hrow
+  rw [hfrag]
+  exact count_above_cap_corrupt cfg elem cap lenBits _ n o hcount hn
+
+/-! ### (b) a successful list decode: the count, then exactly that many elements -/
+
+/-- `frag_vec_with_len!`: the tokens are `count n` followed by the tokens of exactly `n` element
+decodes, where `n ≤ cap` is the value of the count field at the cursor -/
+theorem vec_decode_count (cfg : Cfg) (elem : Frag) (cap lenBits : Nat) (c c' : Cur) (toks : List Tok)
+    (h : decFrag cfg (.vecWithLen elem cap lenBits) c = .ok (toks, c')) :
+    ∃ n o ps, Bits.parse cfg ⟨.u, 16⟩ c.data c.off lenBits = .ok (n, o) ∧ n ≤ cap ∧
+      Steps (decFrag cfg elem) n { c with off := o } ps c' ∧ ps.length = n ∧
+      decRepeat (decFrag cfg elem) n { c with off := o } = .ok (ps.flatten, c') ∧
+      toks = .count n :: ps.flatten := by
+  unfold decFrag at h
+  split at h
+  · next n o hp =>
+    split at h
+    · simp at h
+    · next hle =>
+      split at h
+      · next te c2 hr =>
+        simp only [Res.ok.injEq, Prod.mk.injEq] at h
+        obtain ⟨rfl, rfl⟩ := h
+        obtain ⟨ps, hs, rfl⟩ := decRepeat_ok_iff.1 hr
+        exact ⟨n, o, ps, hp, by omega, hs, hs.length, hr, rfl⟩
+      · simp at h
+      · simp at h
+  · simp at h
+  · simp at h
+
+/-- `msg_len_middle!`: the tokens are those of `fields1`, `count n`, those of `fields2`, then the
+tokens of exactly `n` element decodes, where `n ≤ cap` is the value of the count field -/
+theorem lenMiddle_decode_count (cfg : Cfg) (f1 f2 : Fields) (lenDf : DfSpec) (elem : Frag) (cap : Nat)
+    (c c' : Cur) (toks : List Tok)
+    (h : decFrag cfg (.lenMiddle f1 lenDf f2 elem cap) c = .ok (toks, c')) :
+    ∃ (t1 t2 : List Tok) (c1 c2 c3 : Cur) (n : Int) (ps : List (List Tok)),
+      decFields cfg f1 c = .ok (t1, c1) ∧ Df.decode cfg lenDf c1 = .ok ([.int n], c2) ∧
+      decFields cfg f2 c2 = .ok (t2, c3) ∧ n.toNat ≤ cap ∧
+      Steps (decFrag cfg elem) n.toNat c3 ps c' ∧ ps.length = n.toNat ∧
+      toks = t1 ++ [.count n.toNat] ++ t2 ++ ps.flatten := by
+  unfold decFrag at h
+  split at h
+  · next t1 c1 h1 =>
+    split at h
+    · next n c2 hc =>
+      split at h
+      · next t2 c3 h2 =>
+        split at h
+        · simp at h
+        · next hle =>
+          split at h
+          · next te c4 hr =>
+            simp only [Res.ok.injEq, Prod.mk.injEq] at h
+            obtain ⟨rfl, rfl⟩ := h
+            obtain ⟨ps, hs, rfl⟩ := decRepeat_ok_iff.1 hr
+            exact ⟨t1, t2, c1, c2, c3, n, ps, h1, hc, h2, by omega, hs, hs.length, rfl⟩
+          · simp at h
+          · simp at h
+      · simp at h
+      · simp at h
+    · simp at h
+    · simp at h
+    · simp at h
+  · simp at h
+  · simp at h
+
+/-- `frag_grid16p!`: exactly 16 elements -/
+theorem grid16_decode_count (cfg : Cfg) (elem : Frag) (c c' : Cur) (toks : List Tok)
+    (h : decFrag cfg (.grid16 elem) c = .ok (toks, c')) :
+    ∃ ps, Steps (decFrag cfg elem) 16 c ps c' ∧ ps.length = 16 ∧ toks = ps.flatten := by
+  unfold decFrag at h
+  obtain ⟨ps, hs, rfl⟩ := decRepeat_ok_iff.1 h
+  exact ⟨ps, hs, hs.length, rfl⟩
+
+/-! ### (d) a body that ends before the last element is never accepted with fewer elements -/
+
+/-- generic: a list decode that succeeds has decoded all `n` elements (no early `Ok`) -/
+theorem decRepeat_all_elements (f : Dec) (n : Nat) (c c' : Cur) (ts : List Tok)
+    (h : decRepeat f n c = .ok (ts, c')) :
+    ∃ ps, Steps f n c ps c' ∧ ps.length = n ∧ ts = ps.flatten := by
+  obtain ⟨ps, hs, rfl⟩ := decRepeat_ok_iff.1 h
+  exact ⟨ps, hs, hs.length, rfl⟩
+
+/-- generic: if element `k < n` (after `k` successful ones) fails with an error, the list fails with
+that error -/
+theorem decRepeat_first_error (f : Dec) (n k : Nat) (c ck : Cur) (ps : List (List Tok)) (e : RtcmError)
+    (hk : k < n) (hs : Steps f k c ps ck) (hfail : f ck = .err e) : decRepeat f n c = .err e := by
+  have : n = k + 1 + (n - k - 1) := by omega
+  rw [this]
+  exact decRepeat_err_of_steps hs hfail _
+
+/-- `frag_vec_with_len!`: if the `k`-th element (`k < n`, `n` the count on the wire) fails — in
+particular with `BufferOverflow` because the buffer ends inside it — the whole fragment is an error:
+`CapacityExceeded` if the count is above the capacity, the element's error otherwise. -/
+theorem truncated_body_corrupt (cfg : Cfg) (elem : Frag) (cap lenBits : Nat) (c ck : Cur) (n o k : Nat)
+    (ps : List (List Tok)) (e : RtcmError)
+    (hcount : Bits.parse cfg ⟨.u, 16⟩ c.data c.off lenBits = .ok (n, o)) (hk : k < n)
+    (hs : Steps (decFrag cfg elem) k { c with off := o } ps ck)
+    (hfail : decFrag cfg elem ck = .err e) :
+    decFrag cfg (.vecWithLen elem cap lenBits) c = .err (if cap < n then .capacityExceeded else e) := by
+  by_cases hn : cap < n
+  · rw [if_pos hn]
+    exact count_above_cap_corrupt cfg elem cap lenBits c n o hcount hn
+  · rw [if_neg hn]
+    unfold decFrag
+    simp only [hcount, gt_iff_lt, hn, if_false,
+      decRepeat_first_error (decFrag cfg elem) n k _ ck ps e hk hs hfail]
+
+/-- the same for `msg_len_middle!` -/
+theorem truncated_body_corrupt_lenMiddle (cfg : Cfg) (f1 f2 : Fields) (lenDf : DfSpec) (elem : Frag)
+    (cap : Nat) (c c1 c2 c3 ck : Cur) (t1 t2 : List Tok) (n : Int) (k : Nat) (ps : List (List Tok))
+    (e : RtcmError)
+    (h1 : decFields cfg f1 c = .ok (t1, c1))
+    (hcount : Df.decode cfg lenDf c1 = .ok ([.int n], c2))
+    (h2 : decFields cfg f2 c2 = .ok (t2, c3)) (hk : k < n.toNat)
+    (hs : Steps (decFrag cfg elem) k c3 ps ck) (hfail : decFrag cfg elem ck = .err e) :
+    decFrag cfg (.lenMiddle f1 lenDf f2 elem cap) c
+      = .err (if cap < n.toNat then .capacityExceeded else e) := by
+  by_cases hn : cap < n.toNat
+  · rw [if_pos hn]
+    exact count_above_cap_corrupt_lenMiddle cfg f1 f2 lenDf elem cap c c1 c2 c3 t1 t2 n h1 hcount h2 hn
+  · rw [if_neg hn]
+    unfold decFrag
+    simp only [h1, hcount, h2, gt_iff_lt, hn, if_false,
+      decRepeat_first_error (decFrag cfg elem) n.toNat k _ ck ps e hk hs hfail]
+
+/-- hence: `Ok` is only possible if no element fails, and then the list has exactly `n` elements
+(this is `vec_decode_count`); a truncated body can never produce a shorter list. -/
+theorem vec_ok_no_element_fails (cfg : Cfg) (elem : Frag) (cap lenBits : Nat) (c c' ck : Cur) (toks : List Tok)
+    (n o k : Nat) (ps : List (List Tok))
+    (h : decFrag cfg (.vecWithLen elem cap lenBits) c = .ok (toks, c'))
+    (hcount : Bits.parse cfg ⟨.u, 16⟩ c.data c.off lenBits = .ok (n, o)) (hk : k < n)
+    (hs : Steps (decFrag cfg elem) k { c with off := o } ps ck) :
+    ∃ t ck', decFrag cfg elem ck = .ok (t, ck') := by
+  cases hf : decFrag cfg elem ck with
+  | ok r => exact ⟨r.1, r.2, rfl⟩
+  | err e =>
+    rw [truncated_body_corrupt cfg elem cap lenBits c ck n o k ps e hcount hk hs hf] at h
+    simp at h
+  | panic w =>
+    exfalso
+    unfold decFrag at h
+    have : n = k + 1 + (n - k - 1) := by omega
+    rw [hcount] at h
+    simp only [] at h
+    rw [this, decRepeat_panic_of_steps hs hf] at h
+    split at h <;> simp at h
+
+/-- the leaf case that makes a truncated element fail: a data field that would extend past the end
+of the buffer reports `BufferOverflow` (C07 `parse_overflow_error`) -/
+theorem df_truncated (cfg : Cfg) (s : DfSpec) (c : Cur) (h : c.data.length * 8 < c.off + s.len) :
+    decFrag cfg (.df s) c = .err .bufferOverflow := by
+  unfold decFrag Df.decode
+  rw [C07.parse_overflow_error cfg s.it c.data c.off s.len h]
+
+/-- (d) made concrete for fixed-size elements (`dfOnly`: data fields, sequences and 16-grids of
+them; size `maxBits elem > 0`): if the buffer ends before the end of the `n`-th element, where `n`
+is the count on the wire, the decode is never `Ok` — in particular never a shorter list. -/
+theorem truncated_fixed_not_ok (cfg : Cfg) (elem : Frag) (cap lenBits : Nat) (c : Cur) (n o : Nat)
+    (hd : dfOnly elem = true)
+    (hcount : Bits.parse cfg ⟨.u, 16⟩ c.data c.off lenBits = .ok (n, o))
+    (hshort : 8 * c.data.length < o + n * maxBits elem) :
+    (decFrag cfg (.vecWithLen elem cap lenBits) c).isOk = false := by
+  cases hres : decFrag cfg (.vecWithLen elem cap lenBits) c with
+  | err e => rfl
+  | panic w => rfl
+  | ok r =>
+    exfalso
+    obtain ⟨toks, c'⟩ := r
+    obtain ⟨n', o', ps, hp, _, _, _, hr, _⟩ := vec_decode_count cfg elem cap lenBits c c' toks hres
+    rw [hcount] at hp
+    simp only [Res.ok.injEq, Prod.mk.injEq] at hp
+    obtain ⟨rfl, rfl⟩ := hp
+    obtain ⟨_, hfit⟩ := parse_ok_cursor hcount
+    obtain ⟨_, hoff, hin⟩ := decRepeat_fixed (fun c t c' h => decFrag_fixed cfg elem c c' t hd h) _ _ _ _ hr
+    simp only at hoff hin
+    obtain ⟨ho, _⟩ := parse_ok_cursor hcount
+    rcases hin with h0 | hle
+    · rw [h0] at hshort; omega
+    · omega
+
+/-- a successful decode of a list of fixed-size elements consumed exactly
+`lenBits + n * maxBits elem` bits, all inside the buffer -/
+theorem vec_fixed_size (cfg : Cfg) (elem : Frag) (cap lenBits : Nat) (c c' : Cur) (toks : List Tok)
+    (hd : dfOnly elem = true)
+    (h : decFrag cfg (.vecWithLen elem cap lenBits) c = .ok (toks, c')) :
+    ∃ n ps, toks = .count n :: List.flatten ps ∧ ps.length = n ∧ n ≤ cap ∧
+      c'.off = c.off + lenBits + n * maxBits elem ∧ c'.off ≤ 8 * c.data.length ∧ c'.data = c.data := by
+  obtain ⟨n, o, ps, hp, hn, _, hlen, hr, ht⟩ := vec_decode_count cfg elem cap lenBits c c' toks h
+  obtain ⟨ho, hfit⟩ := parse_ok_cursor hp
+  obtain ⟨hdat, hoff, hin⟩ := decRepeat_fixed (fun c t c' h => decFrag_fixed cfg elem c c' t hd h) _ _ _ _ hr
+  simp only at hoff hin hdat
+  refine ⟨n, ps, ht, hlen, hn, by omega, ?_, hdat⟩
+  rcases hin with h0 | hle
+  · rw [h0] at hoff; omega
+  · exact hle
+
+/-- message level: a truncated list body gives `Message::Corrupt` -/
+theorem truncated_message_corrupt (cfg : Cfg) (tbl : List MsgRow) (f : Frame) (num : Nat) (row : MsgRow)
+    (elem : Frag) (cap lenBits n o k : Nat) (ps : List (List Tok)) (ck : Cur) (e : RtcmError)
+    (hnum : f.number = some num) (hrow : findRow tbl num = some row)
+    (hfrag : row.frag = .vecWithLen elem cap lenBits)
+    (hcount : Bits.parse cfg ⟨.u, 16⟩ (f.data.map (·.toNat)) 12 lenBits = .ok (n, o)) (hk : k < n)
+    (hs : Steps (decFrag cfg elem) k { data := f.data.map (·.toNat), off := o } ps ck)
+    (hfail : decFrag cfg elem ck = .err e) :
+    decodeFrame cfg tbl f = .ok .corrupt := by
+  apply decodeFrame_corrupt_of_err cfg tbl f num row _ hnum hrow
+  rw [hfrag]
+  exact truncated_body_corrupt cfg elem cap lenBits _ ck n o k ps e hcount hk hs hfail
+
+/-! ### (c) the count on the wire is the number of elements
+
+Full statement (not only "right after the count write"): in the buffer that results from encoding
+the *whole* list, the `lenBits` bits at the list's start read back as `n`. This uses
+`Interp.encFrag_below` (Proofs/InterpFrame.lean): every encoder of the interpreter leaves all bits
+before its cursor unchanged. "Buffer large enough" is not a hypothesis: it follows from the
+encoder having succeeded. -/
+
+/-- A field written by `put` reads back from every later buffer that has the same length and agrees
+with the buffer right after the write on all bits before the field's end. -/
+theorem field_survives (cfg : Cfg) (it : Bits.IT) (data : List Nat) (off v len : Nat) (d : List Nat) (o : Nat)
+    (data' : List Nat) (hw8 : 8 ≤ it.w) (hw64 : it.w ≤ 64) (h1 : 1 ≤ len) (hlw : len ≤ it.w)
+    (hdata : ∀ x ∈ data, x < 256) (hv : v < 2 ^ it.w) (hrep : Bits.Representable it len v)
+    (hput : Bits.put cfg it data off v len = .ok (d, o))
+    (hlen : data'.length = d.length) (hbits : ∀ g, g < o → Bits.bitAt data' g = Bits.bitAt d g) :
+    Bits.parse cfg it data' off len = .ok (v, off + len) := by
+  have hfit : off + len ≤ 8 * data.length := by
+    apply Decidable.byContradiction
+    intro hnot
+    rw [C07.put_overflow_error cfg it data off v len (by omega)] at hput
+    simp at hput
+  have hdl := Bits.put_length hput
+  obtain ⟨ho, _⟩ := Bits.put_below hput
+  have hparse := C07.parse_put cfg it data off v len hw8 hw64 h1 hlw hdata hfit hv hrep d o hput
+  rw [C07.parse_bits cfg it data' off len hw8 hw64 h1 hlw (by omega)]
+  rw [C07.parse_bits cfg it d off len hw8 hw64 h1 hlw (by omega)] at hparse
+  rw [Bits.fieldValue_congr (a := data') (b := d) (fun g _ hg => hbits g (by omega))]
+  exact hparse
+
+/-- `frag_vec_with_len!`: after a successful encode of a list of `n ≤ cap` elements
+(`cap < 2^lenBits`, i.e. `countsFit`), the count field of the resulting buffer holds `n`. -/
+theorem count_on_wire (cfg : Cfg) (glo : SigTable) (elem : Frag) (cap lenBits n : Nat) (rest ts' : List Tok)
+    (c c' : Cur) (hn : n ≤ cap) (hcap : cap < 2 ^ lenBits) (h1 : 1 ≤ lenBits) (h16 : lenBits ≤ 16)
+    (hdata : ∀ d ∈ c.data, d < 256)
+    (henc : encFrag cfg glo (.vecWithLen elem cap lenBits) (.count n :: rest) c = .ok (c', ts')) :
+    Bits.parse cfg ⟨.u, 16⟩ c'.data c.off lenBits = .ok (n, c.off + lenBits) ∧
+    c'.data.length = c.data.length := by
+  unfold encFrag at henc
+  simp only [gt_iff_lt, show ¬ cap < n from by omega, if_false] at henc
+  have hlt : n < 2 ^ lenBits := by omega
+  have h216 : 2 ^ lenBits ≤ 2 ^ 16 := Nat.pow_le_pow_right (by decide) h16
+  have h65536 : n % 65536 = n := Nat.mod_eq_of_lt (by omega)
+  rw [h65536] at henc
+  split at henc
+  · next d o hp =>
+    obtain ⟨hl, _, hb⟩ := encRepeat_below henc
+    simp only at hl hb
+    exact ⟨field_survives cfg ⟨.u, 16⟩ c.data c.off n lenBits d o c'.data (by decide) (by decide) h1 h16
+      hdata (by simp only; omega) hlt hp hl hb, by rw [hl, Bits.put_length hp]⟩
+  · simp at henc
+  · simp at henc
+
+/-- `df_88591_string_with_len!`: after a successful encode of a string of `b.length ≤ cap` bytes
+(`cap < 2^lenBits`, `lenBits ≤ 8`), the length prefix of the resulting buffer holds `b.length`. -/
+theorem count_on_wire_str (cfg : Cfg) (glo : SigTable) (cap lenBits : Nat) (b : List Nat) (rest ts' : List Tok)
+    (c c' : Cur) (hn : b.length ≤ cap) (hcap : cap < 2 ^ lenBits) (h1 : 1 ≤ lenBits) (h8 : lenBits ≤ 8)
+    (hdata : ∀ d ∈ c.data, d < 256)
+    (henc : encFrag cfg glo (.str cap lenBits) (.bytes b :: rest) c = .ok (c', ts')) :
+    Text.parseU cfg 8 lenBits { data := c'.data, off := c.off }
+      = .ok (b.length, { data := c'.data, off := c.off + lenBits }) := by
+  unfold encFrag at henc
+  simp only [gt_iff_lt, show ¬ cap < b.length from by omega, if_false] at henc
+  obtain ⟨c2, hstr, hk⟩ := lift_ok henc
+  simp only [Res.ok.injEq, Prod.mk.injEq] at hk
+  obtain ⟨rfl, _⟩ := hk
+  have hlt : b.length < 2 ^ lenBits := by omega
+  have h28 : 2 ^ lenBits ≤ 2 ^ 8 := Nat.pow_le_pow_right (by decide) h8
+  have h256 : b.length % 256 = b.length := Nat.mod_eq_of_lt (by omega)
+  unfold Text.strEncode at hstr
+  simp only [List.length_map, h256] at hstr
+  split at hstr
+  · next c1 hu =>
+    unfold Text.putU at hu
+    split at hu
+    · next d o hp =>
+      simp only [Res.ok.injEq] at hu
+      subst hu
+      obtain ⟨hl, _, hb⟩ := Text.putBytes_rel below_putInv _ _ _ _ hstr
+      simp only at hl hb
+      unfold Text.parseU
+      simp only [field_survives cfg ⟨.u, 8⟩ c.data c.off b.length lenBits d o c2.data (by decide) (by decide) h1 h8
+        hdata (by simp only; omega) hlt hp hl hb]
+    · simp at hu
+    · simp at hu
+  · simp at hstr
+  · simp at hstr
+
+/-- `msg_len_middle!`: after a successful encode, the count field (an unsigned field without
+scaling, bias or invalid marker: `countsFit`) of the resulting buffer holds the number of elements
+`n ≤ cap` that was encoded; `c1` is the cursor after `fields1`, where the count field starts. -/
+theorem count_on_wire_lenMiddle (cfg : Cfg) (glo : SigTable) (f1 f2 : Fields) (lenDf : DfSpec) (elem : Frag)
+    (cap : Nat) (ts ts' : List Tok) (c c' : Cur)
+    (hk : lenDf.it.kind = .u) (hw8 : 8 ≤ lenDf.it.w) (hw64 : lenDf.it.w ≤ 64)
+    (h1 : 1 ≤ lenDf.len) (hlw : lenDf.len ≤ lenDf.it.w)
+    (hfl : lenDf.dt.isFloat = false) (hres : lenDf.res = none) (hbias : lenDf.bias = none)
+    (hinv : lenDf.inv = none) (hcap : cap < 2 ^ lenDf.len)
+    (hdata : ∀ d ∈ c.data, d < 256)
+    (henc : encFrag cfg glo (.lenMiddle f1 lenDf f2 elem cap) ts c = .ok (c', ts')) :
+    ∃ c1 n ts2, encFields cfg glo f1 ts c = .ok (c1, .count n :: ts2) ∧ n ≤ cap ∧
+      Bits.parse cfg lenDf.it c'.data c1.off lenDf.len = .ok (n, c1.off + lenDf.len) := by
+  unfold encFrag at henc
+  split at henc
+  · next c1 ts1 hf1 =>
+    split at henc
+    · next n ts2 =>
+      split at henc
+      · simp at henc
+      · next hncap =>
+        split at henc
+        · next c2 tsx hdf =>
+          split at henc
+          · next c3 ts3 hf2 =>
+            refine ⟨c1, n, ts2, hf1, by omega, ?_⟩
+            have hlt : n < 2 ^ lenDf.len := by omega
+            have hpw : 2 ^ lenDf.len ≤ 2 ^ lenDf.it.w := Nat.pow_le_pow_right (by decide) hlw
+            have hv : n < 2 ^ lenDf.it.w := by omega
+            -- the count write
+            unfold Df.encode at hdf
+            simp only [hinv, Df.quantise, hfl, hbias, hres, Bool.false_eq_true, if_false,
+              Bits.ofInt_natCast hv] at hdf
+            split at hdf
+            · next d o hp =>
+              simp only [Res.ok.injEq, Prod.mk.injEq] at hdf
+              obtain ⟨rfl, _⟩ := hdf
+              obtain ⟨hl2, ho2, hb2⟩ := encFields_below hf2
+              obtain ⟨hl3, _, hb3⟩ := encRepeat_below henc
+              simp only at hl2 ho2 hb2
+              have hrep : Bits.Representable lenDf.it lenDf.len n := by
+                simp only [Bits.Representable, hk]; exact hlt
+              exact field_survives cfg lenDf.it c1.data c1.off n lenDf.len d o c'.data hw8 hw64 h1 hlw
+                (encFields_bytes hf1 hdata) hv hrep hp (by rw [hl3, hl2])
+                (fun g hg => (hb3 g (by omega)).trans (hb2 g hg))
+            · simp at hdf
+            · simp at hdf
+          · simp at henc
+          · simp at henc
+        · simp at henc
+        · simp at henc
+    · simp at henc
+  · simp at henc
+  · simp at henc
+
+/-- counts agree: decoding the encoded list (from the list's start, in the final buffer) yields
+`count n` first, with the `n` that was encoded — whatever the elements are. -/
+theorem count_agrees (cfg : Cfg) (glo : SigTable) (elem : Frag) (cap lenBits n : Nat) (rest ts' : List Tok)
+    (c c' c'' : Cur) (toks : List Tok) (hn : n ≤ cap) (hcap : cap < 2 ^ lenBits) (h1 : 1 ≤ lenBits)
+    (h16 : lenBits ≤ 16) (hdata : ∀ d ∈ c.data, d < 256)
+    (henc : encFrag cfg glo (.vecWithLen elem cap lenBits) (.count n :: rest) c = .ok (c', ts'))
+    (hdec : decFrag cfg (.vecWithLen elem cap lenBits) { data := c'.data, off := c.off } = .ok (toks, c'')) :
+    ∃ ps : List (List Tok), ps.length = n ∧ toks = .count n :: ps.flatten := by
+  obtain ⟨hp, _⟩ := count_on_wire cfg glo elem cap lenBits n rest ts' c c' hn hcap h1 h16 hdata henc
+  obtain ⟨n', o, ps, hp', _, _, hlen, _, ht⟩ := vec_decode_count cfg elem cap lenBits _ c'' toks hdec
+  simp only at hp'
+  rw [hp] at hp'
+  simp only [Res.ok.injEq, Prod.mk.injEq] at hp'
+  obtain ⟨rfl, rfl⟩ := hp'
+  exact ⟨ps, hlen, ht⟩
+
+/-- the hypotheses `cap < 2^lenBits`, `1 ≤ lenBits ≤ 16` of `count_on_wire` hold for every
+`frag_vec_with_len!` list of every message (`count_fields_wide_enough` unfolds to this). -/
+theorem countsFit_vecWithLen (elem : Frag) (cap lenBits : Nat) (h : countsFit (.vecWithLen elem cap lenBits) = true) :
+    cap < 2 ^ lenBits ∧ lenBits ≤ 16 := by
+  unfold countsFit at h
+  simp only [Bool.and_eq_true, decide_eq_true_eq] at h
+  exact ⟨h.1.1, h.1.2⟩
+
+/-! ### The side conditions hold for every message of the crate -/
+
+mutual
+/-- every count field is a plain unsigned field the bit packer's theorems apply to: `msg_len_middle!`
+count fields have an unsigned carrier of 8..64 bits, `1 ≤ len ≤` carrier width and an integer `dt`;
+`frag_vec_with_len!` and string length prefixes have at least one bit. Together with `countsFit`
+these are the hypotheses of `count_on_wire`, `count_on_wire_str`, `count_on_wire_lenMiddle`. -/
+def countFieldsPlain : Frag → Bool
+  | .df _ | .text1029 | .bias1059 _ _ | .bias1065 _ _ | .bias1230 | .msm _ _ _ => true
+  | .str _ lenBits => decide (1 ≤ lenBits)
+  | .seq fs => countFieldsPlainFields fs
+  | .lenMiddle f1 l f2 e _ =>
+    decide (l.it.kind = .u) && decide (8 ≤ l.it.w) && decide (l.it.w ≤ 64) && decide (1 ≤ l.len) &&
+      decide (l.len ≤ l.it.w) && !l.dt.isFloat &&
+      countFieldsPlainFields f1 && countFieldsPlainFields f2 && countFieldsPlain e
+  | .vecWithLen e _ lenBits => decide (1 ≤ lenBits) && countFieldsPlain e
+  | .grid16 e => countFieldsPlain e
+def countFieldsPlainFields : Fields → Bool
+  | .nil => true
+  | .cons _ f rest => countFieldsPlain f && countFieldsPlainFields rest
+end
+
+theorem count_fields_plain : Gen.messageTable.all (fun r => countFieldsPlain r.frag) = true := by
+  decide +kernel
+
+/-- `count_on_wire_lenMiddle` with its side conditions discharged by the two table checks -/
+theorem count_on_wire_lenMiddle' (cfg : Cfg) (glo : SigTable) (f1 f2 : Fields) (lenDf : DfSpec) (elem : Frag)
+    (cap : Nat) (ts ts' : List Tok) (c c' : Cur)
+    (hfit : countsFit (.lenMiddle f1 lenDf f2 elem cap) = true)
+    (hplain : countFieldsPlain (.lenMiddle f1 lenDf f2 elem cap) = true)
+    (hdata : ∀ d ∈ c.data, d < 256)
+    (henc : encFrag cfg glo (.lenMiddle f1 lenDf f2 elem cap) ts c = .ok (c', ts')) :
+    ∃ c1 n ts2, encFields cfg glo f1 ts c = .ok (c1, .count n :: ts2) ∧ n ≤ cap ∧
+      Bits.parse cfg lenDf.it c'.data c1.off lenDf.len = .ok (n, c1.off + lenDf.len) := by
+  unfold countsFit at hfit
+  unfold countFieldsPlain at hplain
+  simp only [Bool.and_eq_true, decide_eq_true_eq, Option.isNone_iff_eq_none, Bool.not_eq_true'] at hfit hplain
+  obtain ⟨⟨⟨⟨⟨⟨hcap, hres⟩, hbias⟩, hinv⟩, _⟩, _⟩, _⟩ := hfit
+  obtain ⟨⟨⟨⟨⟨⟨⟨⟨hk, hw8⟩, hw64⟩, h1⟩, hlw⟩, hfl⟩, _⟩, _⟩, _⟩ := hplain
+  exact count_on_wire_lenMiddle cfg glo f1 f2 lenDf elem cap ts ts' c c' hk hw8 hw64 h1 hlw hfl hres hbias
+    hinv hcap hdata henc
+
+/-! ### Instances on the generated table (kernel evaluation, both build profiles) -/
+
+/-- the result is `Err(e)` -/
+def errIs {α} (e : RtcmError) : Res α → Bool
+  | .err e' => e' == e
+  | _ => false
+
+/-- SSR orbit list of 1057 (capacity 60, 6-bit count): a count of 61 on the wire → `CapacityExceeded` -/
+example (cfg : Cfg) :
+    errIs .capacityExceeded
+      (decFrag cfg Gen.frag_msg1057_sat_vec { data := (61 * 4) :: List.replicate 1000 0, off := 0 }) = true := by
+  cases cfg with
+  | mk ck => cases ck <;> decide +kernel
+
+/-- the same list, count 2, but the buffer ends inside the first element (135 bits) → `BufferOverflow`,
+not a list of 0 elements -/
+example (cfg : Cfg) :
+    errIs .bufferOverflow
+      (decFrag cfg Gen.frag_msg1057_sat_vec { data := (2 * 4) :: List.replicate 9 0, off := 0 }) = true := by
+  cases cfg with
+  | mk ck => cases ck <;> decide +kernel
+
+/-- … and ends inside the second element -/
+example (cfg : Cfg) :
+    errIs .bufferOverflow
+      (decFrag cfg Gen.frag_msg1057_sat_vec { data := (2 * 4) :: List.replicate 30 0, off := 0 }) = true := by
+  cases cfg with
+  | mk ck => cases ck <;> decide +kernel
+
+/-- with enough bytes the same prefix decodes to exactly two elements -/
+example (cfg : Cfg) :
+    (match decFrag cfg Gen.frag_msg1057_sat_vec { data := (2 * 4) :: List.replicate 40 0, off := 0 } with
+     | .ok (.count n :: _, c') => n == 2 && c'.off == 6 + 2 * 135
+     | _ => false) = true := by
+  cases cfg with
+  | mk ck => cases ck <;> decide +kernel
 
 end Rtcm.C15
